@@ -456,11 +456,11 @@ theorem sem_addPlusOne {v : Label → Bool} {ins out : List Label} {rl : Option 
 
 /-! ### equality with a constant -/
 
-def ofBits : List Bool → Nat
+def bitsValLE : List Bool → Nat
   | [] => 0
-  | b :: r => b.toNat + 2 * ofBits r
+  | b :: r => b.toNat + 2 * bitsValLE r
 
-theorem ofBits_binDigits : ∀ (fuel n : Nat), n < fuel → ofBits (binDigitsLE fuel n) = n := by
+theorem bitsValLE_binDigits : ∀ (fuel n : Nat), n < fuel → bitsValLE (binDigitsLE fuel n) = n := by
   intro fuel
   induction fuel with
   | zero => intro n h; omega
@@ -472,7 +472,7 @@ theorem ofBits_binDigits : ∀ (fuel n : Nat), n < fuel → ofBits (binDigitsLE 
       have : n = 0 ∨ n = 1 := by omega
       rcases this with rfl | rfl <;> rfl
     · rename_i h2
-      simp only [ofBits]
+      simp only [bitsValLE]
       rw [ih (n / 2) (by omega)]
       have : (n % 2 == 1).toNat = n % 2 := by
         have : n % 2 = 0 ∨ n % 2 = 1 := by omega
@@ -499,26 +499,26 @@ theorem binDigits_len : ∀ (fuel n : Nat), n < fuel → 1 ≤ n → 2 ^ ((binDi
       rw [this, Nat.pow_succ]
       omega
 
-theorem ofBits_pad (bs : List Bool) (k : Nat) : ofBits (bs ++ List.replicate k false) = ofBits bs := by
+theorem bitsValLE_pad (bs : List Bool) (k : Nat) : bitsValLE (bs ++ List.replicate k false) = bitsValLE bs := by
   induction bs with
   | nil =>
     induction k with
     | zero => rfl
-    | succ k ih => simp only [List.nil_append] at ih ⊢; simp [List.replicate_succ, ofBits, ih]
-  | cons b r ih => simp [ofBits, ih]
+    | succ k ih => simp only [List.nil_append] at ih ⊢; simp [List.replicate_succ, bitsValLE, ih]
+  | cons b r ih => simp [bitsValLE, ih]
 
 /-- equal-length bit lists: pointwise equal iff equal as numbers -/
 theorem bits_eq_iff {v : Label → Bool} : ∀ (ins : List Label) (bits : List Bool), bits.length = ins.length →
-    (ins.map v = bits ↔ valLE v ins = ofBits bits) := by
+    (ins.map v = bits ↔ valLE v ins = bitsValLE bits) := by
   intro ins
   induction ins with
-  | nil => intro bits h; cases bits <;> simp_all [valLE, ofBits]
+  | nil => intro bits h; cases bits <;> simp_all [valLE, bitsValLE]
   | cons x r ih =>
     intro bits h
     rcases bits with _ | ⟨b, bs⟩
     · simp at h
     have := ih bs (by simpa using h)
-    simp only [List.map_cons, List.cons.injEq, valLE, ofBits, this, bv]
+    simp only [List.map_cons, List.cons.injEq, valLE, bitsValLE, this, bv]
     constructor
     · rintro ⟨h1, h2⟩; rw [h1, h2]
     · intro h3
@@ -596,7 +596,7 @@ operand equals the constant — in particular never when the constant does not f
 theorem sem_addEqual {v : Label → Bool} {ins : List Label} {num : Nat} {out : Label}
     (h : Sem (addEqual ins num) v out) (hn : 1 ≤ ins.length) : (v out = true ↔ valLE v ins = num) := by
   unfold addEqual at h
-  have hd := ofBits_binDigits (num + 1) num (by omega)
+  have hd := bitsValLE_binDigits (num + 1) num (by omega)
   simp only at h
   split at h
   · -- the constant does not fit
@@ -625,7 +625,7 @@ theorem sem_addEqual {v : Label → Bool} {ins : List Label} {num : Nat} {out : 
   · rename_i hle
     have hlen : (eqBits num ins.length).length = ins.length := by
       simp only [eqBits, List.length_append, List.length_replicate] at hle ⊢; omega
-    have hval : ofBits (eqBits num ins.length) = num := by simp only [eqBits]; rw [ofBits_pad, hd]
+    have hval : bitsValLE (eqBits num ins.length) = num := by simp only [eqBits]; rw [bitsValLE_pad, hd]
     simp only [sem_bind] at h
     obtain ⟨lits, hl, hbody⟩ := h
     obtain ⟨ls, h1, h2, h3⟩ := sem_eqLiterals _ _ _ _ hl hlen
